@@ -91,14 +91,15 @@ class PGen:
         self.rng = rng
         self.feats = set()
 
-    def prog(self, depth, maxlen):
+    def prog(self, depth, maxlen, top=False):
         rng = self.rng
-        n = rng.randint(0, maxlen)
+        n = rng.randint(1 if top else 0, maxlen)
         out = []
+        pshift = 0.45 if top else 0.72      # fewer shifts outside every reset
         for _ in range(n):
             r = rng.random()
-            if r < 0.4: out.append(("log", rng.randint(1, 9)))
-            elif r < 0.72: out.append(("shift", rng.randint(1, 9)))
+            if r < 0.35: out.append(("log", rng.randint(1, 9)))
+            elif r < pshift: out.append(("shift", rng.randint(1, 9)))
             elif depth > 0:
                 h = rng.choice(["drop", "resume", "loop", "sum"])
                 self.feats.add(h)
@@ -187,10 +188,10 @@ def run(ctx):
     pairs3 = [(a, b) for a in range(3) for b in range(3)]
     allsmall = list(range(512))
     rng.shuffle(allsmall)
-    for m in allsmall[:ctx.scale(70, 512)]:
+    for m in allsmall[:ctx.scale(90, 512)]:
         small.append((3, [pairs3[i] for i in range(9) if m >> i & 1]))
     big = []
-    for _ in range(ctx.scale(110, 1500)):
+    for _ in range(ctx.scale(150, 1500)):
         n = rng.choice([4, 4, 5, 5, 6, 6])
         style = rng.random()
         ne = rng.randint(1, 2 * n)
@@ -237,7 +238,7 @@ def run(ctx):
     progs = []
     for i in range(nP):
         g = PGen(rng)
-        pr = g.prog(rng.choice([0, 1, 2, 2, 3]), rng.choice([2, 3, 4, 5]))
+        pr = g.prog(rng.choice([1, 1, 2, 2, 3]), rng.choice([2, 3, 4, 5]), top=True)
         if size(pr) > 14:
             pr = pr[:2]
         progs.append((pr, g.feats))
